@@ -629,6 +629,10 @@ func (l *lexer) lexFuncDef() action {
 }
 
 func (l *lexer) lexToken(tok int) action {
+	if tok == 0 && l.heredoc.exists() {
+		// EOF before the here-documents of the last line
+		return l.lexHeredoc
+	}
 	switch tok {
 	case AND, OR:
 		l.emit(tok)
